@@ -368,4 +368,8 @@ def eds_model(rng, node_id=None, n_objects=14, dcf=False, index_ranges=((0x1002,
         "LSS_supported": rng.random() < 0.5,
         "allowed_baudrates": set(rng.sample([10000, 20000, 50000, 125000, 250000, 500000, 800000, 1000000], rng.randint(1, 5))),
     }
+    # device descriptions are often incomplete: an omitted entry stays None, the others are still taken from the file
+    if rng.random() < 0.6:
+        for key in rng.sample([k for k in m.device_info if k != "allowed_baudrates"], rng.randint(1, 4)):
+            m.device_info[key] = None
     return m
